@@ -135,7 +135,7 @@ pub fn run(c: &Case) -> Case { run_case(c, &SrvOpts::default()) }
 
 // ---------------------------------------------------------------- property oracle (independent of the model)
 #[derive(Clone)]
-struct Req { name: Vec<u8>, args: Vec<Vec<u8>>, t: i128, oms: i128, db: i64 }
+struct Req { name: Vec<u8>, args: Vec<Vec<u8>>, t: i128, oms: i128, db: i64, queued: bool }
 
 fn bulks(v: &V) -> Option<Vec<Vec<u8>>> {
     match v { V::Array(l) => l.iter().map(|x| match x { V::Bulk(b) => Some(b.clone()), _ => None }).collect(), _ => None }
@@ -156,6 +156,8 @@ pub fn judge(c: &Case, outs: &[Vec<Tok>]) -> Vec<String> {
     let mut remaining: Vec<Vec<u8>> = vec![];
     let mut deleted: Vec<Vec<u8>> = vec![];
     let mut blocked_close = false; let mut behind_block = false;
+    let mut send_multi: HashMap<i128, bool> = HashMap::new();    // MULTI written, EXEC/DISCARD not yet (a queued blocking pop does not block)
+    let mut recv_multi: HashMap<i128, bool> = HashMap::new();    // MULTI acknowledged: replies come strictly in request order
     let last_bsend = c.ops.iter().rposition(|o| matches!(o.first(), Some(Tok::B(n)) if n == b"BSEND" || n == b"BCLOSE")).unwrap_or(0);
 
     // one reply `v` to request `rq`, seen at op `ix` (logical time `t`)
@@ -173,6 +175,7 @@ pub fn judge(c: &Case, outs: &[Vec<Tok>]) -> Vec<String> {
                     _ => fails.push(format!("FAIL case={} op={} malformed reply to a blocking pop", cid, ix)),
                 }
             }
+            (b"BLPOP", V::NullArray) | (b"BRPOP", V::NullArray) if rq.queued => {}      // inside EXEC: nil at once
             (b"BLPOP", V::NullArray) | (b"BRPOP", V::NullArray) => {
                 if rq.oms == 0 { fails.push(format!("FAIL case={} op={} nil answered a blocking pop that asked to wait forever", cid, ix)); }
                 else if rq.oms > 0 && t < rq.t + rq.oms { fails.push(format!("FAIL case={} op={} nil at {} ms answered a blocking pop sent at {} ms with a timeout of {} ms", cid, ix, t, rq.t, rq.oms)); }
@@ -197,9 +200,12 @@ pub fn judge(c: &Case, outs: &[Vec<Tok>]) -> Vec<String> {
                     let nm = req_name(rq);
                     let args: Vec<Vec<u8>> = match rq { V::Array(l) => l.iter().skip(1).map(|x| match x { V::Bulk(b) => b.clone(), _ => b"?".to_vec() }).collect(), _ => vec![] };
                     if (nm == b"LPUSH" || nm == b"RPUSH") && args.len() >= 2 { for e in &args[1..] { *sent.entry(e.clone()).or_insert(0) += 1; } }
-                    if blocked_before || pend.get(&conn).map_or(false, |q| q.iter().any(|r| is_block(&r.name) && r.oms >= 0)) { behind_block = true; }
-                    if is_block(&nm) && bulks(rq).is_some() && oms.get(k).map_or(false, |o| *o >= 0) { blocked_before = true; }
-                    pend.entry(conn).or_default().push(Req { name: nm, args, t, oms: *oms.get(k).unwrap_or(&-2), db: 0 });
+                    if blocked_before || pend.get(&conn).map_or(false, |q| q.iter().any(|r| is_block(&r.name) && r.oms >= 0 && !r.queued)) { behind_block = true; }
+                    let in_multi = *send_multi.get(&conn).unwrap_or(&false);
+                    if nm == b"MULTI" { send_multi.insert(conn, true); }
+                    if nm == b"EXEC" || nm == b"DISCARD" { send_multi.insert(conn, false); }
+                    if is_block(&nm) && !in_multi && bulks(rq).is_some() && oms.get(k).map_or(false, |o| *o >= 0) { blocked_before = true; }
+                    pend.entry(conn).or_default().push(Req { name: nm, args, t, oms: *oms.get(k).unwrap_or(&-2), db: 0, queued: in_multi });
                 }
             }
             b"BRECV" | b"BCLOSE" => {
@@ -216,12 +222,15 @@ pub fn judge(c: &Case, outs: &[Vec<Tok>]) -> Vec<String> {
                     // replies come in request order, except that a blocked call is answered later than the
                     // requests the server ran behind it: Int/Bulk/nil-bulk/Simple cannot answer a blocking pop
                     let not_blocking_reply = matches!(v, V::Int(_) | V::Bulk(_) | V::NullBulk | V::Simple(_));
-                    let k = if not_blocking_reply { q.iter().position(|r| !is_block(&r.name)) } else { if q.is_empty() { None } else { Some(0) } };
+                    let k = if *recv_multi.get(&conn).unwrap_or(&false) { if q.is_empty() { None } else { Some(0) } }
+                            else if not_blocking_reply { q.iter().position(|r| !is_block(&r.name) || r.queued) } else { if q.is_empty() { None } else { Some(0) } };
                     let k = match k { Some(k) => k, None => { fails.push(format!("FAIL case={} op={} connection {} received more replies than it sent requests", c.id, ix, conn)); continue; } };
                     let mut rq = q.remove(k);
                     rq.db = *dbof.get(&conn).unwrap_or(&0);
                     if matches!(&v, V::Simple(s) if s == b"QUEUED") { txq.entry(conn).or_default().push(rq); continue; }
                     if rq.name == b"MULTI" || rq.name == b"DISCARD" { txq.remove(&conn); }
+                    if rq.name == b"MULTI" && matches!(&v, V::Simple(s) if s == b"OK") { recv_multi.insert(conn, true); }
+                    if rq.name == b"EXEC" || rq.name == b"DISCARD" { recv_multi.insert(conn, false); }
                     if rq.name == b"EXEC" {
                         let qd = txq.remove(&conn).unwrap_or_default();
                         if let V::Array(l) = &v { if l.len() == qd.len() { for (r2, v2) in qd.iter().zip(l.iter()) { account(r2, v2, ix, t, &c.id, &mut fails, &mut acked, &mut got, &mut dbof, conn); } } }
@@ -237,7 +246,7 @@ pub fn judge(c: &Case, outs: &[Vec<Tok>]) -> Vec<String> {
                 let args: Vec<Vec<u8>> = match &rq { V::Array(l) => l.iter().skip(1).map(|x| match x { V::Bulk(b) => b.clone(), _ => b"?".to_vec() }).collect(), _ => vec![] };
                 let mut p2 = 0; let v = match V::dec(out, &mut p2) { Some(v) => v, None => continue };
                 if (nm == b"LPUSH" || nm == b"RPUSH") && args.len() >= 2 { for e in &args[1..] { *sent.entry(e.clone()).or_insert(0) += 1; } }
-                let r = Req { name: nm.clone(), args: args.clone(), t: tok_int(&op[2]), oms: -2, db: 0 };
+                let r = Req { name: nm.clone(), args: args.clone(), t: tok_int(&op[2]), oms: -2, db: 0, queued: false };
                 account(&r, &v, ix, tok_int(&op[2]), &c.id, &mut fails, &mut acked, &mut got, &mut dbof, tok_int(&op[1]));
                 if nm == b"LRANGE" {
                     if let Some(els) = bulks(&v) {
